@@ -690,6 +690,125 @@ Definition zone_get_node (c : cfg) (z : nmap) (n : name) : option node :=
   | _ => None
   end.
 
+(* ---------------------------------------------------------------- the object-level model (aliasing)
+   Nodes are objects.  The node map of a version maps names to object ids; `heap` is the store of node
+   objects (id = position; allocation appends).  WritableVersion.__init__ copies the *map* (`nodes.update(
+   zone.nodes)`), so an open version shares every node object with the published zone until
+   _maybe_cow_with_name replaces it by a fresh copy; put_rdataset / delete_rdataset then mutate that object
+   in place.  Rdataset objects are never mutated by this code (union / difference clone), so a node object
+   is modelled as the list of rdataset values it holds. *)
+Definition heap := list node.
+Definition hmap := list (name * nat).
+
+Fixpoint amap_get (m : hmap) (k : name) : option nat :=
+  match m with
+  | [] => None
+  | (k', v) :: r => if name_eqb k' k then Some v else amap_get r k
+  end.
+
+Fixpoint amap_set (m : hmap) (k : name) (v : nat) : hmap :=
+  match m with
+  | [] => [(k, v)]
+  | (k', v') :: r => if name_eqb k' k then (k', v) :: r else (k', v') :: amap_set r k v
+  end.
+
+Definition amap_has (m : hmap) (k : name) : bool :=
+  match amap_get m k with Some _ => true | None => false end.
+
+Fixpoint amap_remove (m : hmap) (k : name) : hmap :=
+  match m with
+  | [] => []
+  | (k', v) :: r => if name_eqb k' k then amap_remove r k else (k', v) :: amap_remove r k
+  end.
+
+Definition amap_del (m : hmap) (k : name) : res hmap :=
+  if amap_has m k then Ok (amap_remove m k) else Internal eKeyError.
+
+(* the object with this id (ids held by a map always exist: Proofs/TxnHeap.v) *)
+Definition hnode (h : heap) (id : nat) : node := nth id h [].
+
+(* in-place mutation of one object *)
+Fixpoint hset (h : heap) (id : nat) (nd : node) : heap :=
+  match h, id with
+  | [], _ => []
+  | _ :: r, O => nd :: r
+  | x :: r, Datatypes.S i => x :: hset r i nd
+  end.
+
+Record hver := mkHver { hv_heap : heap; hv_nodes : hmap; hv_changed : list name }.
+
+Definition h_get_node (c : cfg) (v : hver) (n : name) : res (option node) :=
+  do k <- validate_name c n;
+  Ok (match amap_get (hv_nodes v) k with Some id => Some (hnode (hv_heap v) id) | None => None end).
+
+Definition h_get_rdataset (c : cfg) (v : hver) (n : name) (ty cov : Z) : res (option rds) :=
+  do on <- h_get_node c v n;
+  Ok (match on with None => None | Some nd => node_find nd cIN ty cov end).
+
+(* _maybe_cow_with_name: `new_node = node_factory(); new_node.rdatasets.extend(node.rdatasets)` *)
+Definition h_maybe_cow (c : cfg) (v : hver) (n : name) : res (hver * nat * name) :=
+  do k <- validate_name c n;
+  let fresh := length (hv_heap v) in
+  match amap_get (hv_nodes v) k with
+  | Some id =>
+      if changed_has (hv_changed v) k then Ok (v, id, k)
+      else Ok (mkHver (hv_heap v ++ [hnode (hv_heap v) id]) (amap_set (hv_nodes v) k fresh)
+                      (changed_add (hv_changed v) k), fresh, k)
+  | None => Ok (mkHver (hv_heap v ++ [[]]) (amap_set (hv_nodes v) k fresh)
+                       (changed_add (hv_changed v) k), fresh, k)
+  end.
+
+Definition h_put_rdataset (c : cfg) (v : hver) (n : name) (r : rds) : res hver :=
+  do x <- h_maybe_cow c v n;
+  let '(v1, id, k) := x in
+  Ok (mkHver (hset (hv_heap v1) id (node_replace (hnode (hv_heap v1) id) r)) (hv_nodes v1) (hv_changed v1)).
+
+Definition h_delete_rdataset (c : cfg) (v : hver) (n : name) (ty cov : Z) : res hver :=
+  do x <- h_maybe_cow c v n;
+  let '(v1, id, k) := x in
+  let nd' := node_delete (hnode (hv_heap v1) id) cIN ty cov in
+  let h' := hset (hv_heap v1) id nd' in
+  match nd' with
+  | [] => do m <- amap_del (hv_nodes v1) k; Ok (mkHver h' m (hv_changed v1))
+  | _ => Ok (mkHver h' (hv_nodes v1) (hv_changed v1))
+  end.
+
+Definition h_delete_node (c : cfg) (v : hver) (n : name) : res hver :=
+  do k <- validate_name c n;
+  if amap_has (hv_nodes v) k
+  then Ok (mkHver (hv_heap v) (amap_remove (hv_nodes v) k) (changed_add (hv_changed v) k))
+  else Ok v.
+
+(* the published zone is a map plus the objects it points to; a transaction that does not commit leaves
+   both (the objects it allocated are garbage) *)
+Definition hzone := (heap * hmap)%type.
+
+Definition hstore (c : cfg) : store hzone hver := {|
+  s_begin := fun z replacement => mkHver (fst z) (if replacement then [] else snd z) [];
+  s_publish := fun v => (hv_heap v, hv_nodes v);
+  s_get := h_get_rdataset c;
+  s_put := h_put_rdataset c;
+  s_del_name := h_delete_node c;
+  s_del_rds := h_delete_rdataset c;
+  s_exists := fun v n => do on <- h_get_node c v n; Ok (match on with Some _ => true | None => false end);
+  s_node := h_get_node c;
+  s_changed := fun v => match hv_changed v with [] => false | _ => true end;
+  s_count := fun v => (zlen (hv_nodes v),
+                       fold_right (fun kn acc => zlen (hnode (hv_heap v) (snd kn)) + acc) 0 (hv_nodes v))
+|}.
+
+Definition heap_hist (c : cfg) (h : list txnspec) (z : hzone) := run_hist (hstore c) c h z.
+
+(* the value of a published object-level zone *)
+Definition deref (z : hzone) : nmap := map (fun kn => (fst kn, hnode (fst z) (snd kn))) (snd z).
+
+(* Zone.get_node(name) on the object level: the id of the node object *)
+Definition hzone_node_id (c : cfg) (z : hzone) (n : name) : option nat :=
+  match validate_name c n with
+  | Ok k => amap_get (snd z) k
+  | _ => None
+  end.
+
 (* ---------------------------------------------------------------- harness interface *)
 Definition obs_of_rdata (x : rdata) : obs := L [I (fst x); I (snd x)].
 Definition obs_of_rds (r : rds) : obs := L [I (r_ty r); I (r_cov r); I (r_ttl r); L (map obs_of_rdata (r_items r))].
@@ -786,16 +905,47 @@ Fixpoint hist_of_obs (l : list obs) : option (list txnspec) :=
 Definition obs_of_probe (c : cfg) (z : nmap) (p : name) : obs :=
   match zone_get_node c z p with Some n => obs_of_node n | None => N end.
 
+(* is the node object of this name the same object as before the transaction? *)
+Definition obs_of_identity (c : cfg) (before after : hzone) (p : name) : obs :=
+  match hzone_node_id c before p, hzone_node_id c after p with
+  | Some i, Some j => ob (Nat.eqb i j)
+  | _, _ => N
+  end.
+
 Definition obs_of_txn (c : cfg) (probes : list name) (x : list (res out) * nmap) : obs :=
   L [L (map obs_of_out (fst x)); L [I (zlen (snd x)); L (map (obs_of_probe c (snd x)) probes)]].
 
+Fixpoint obs_of_htxns (c : cfg) (probes : list name) (before : hzone) (l : list (list (res out) * hzone)) : list obs :=
+  match l with
+  | [] => []
+  | x :: r =>
+      L [L (map obs_of_out (fst x));
+         L [I (zlen (snd (snd x))); L (map (obs_of_probe c (deref (snd x))) probes)];
+         L (map (obs_of_identity c before (snd x)) probes)]
+      :: obs_of_htxns c probes (snd x) r
+  end.
+
+Fixpoint drop_identity (l : list obs) : list obs :=
+  match l with
+  | [] => []
+  | L [a; b; _] :: r => L [a; b] :: drop_identity r
+  | x :: r => x :: drop_identity r
+  end.
+
+Definition eModelsDisagree := 998.
+
+(* Both models are evaluated on every case: the object-level model gives the observation (results, zone
+   content, object identities); the value-level model (the one `refines` is about) must give the same
+   results and content, otherwise the case is reported as a disagreement. *)
 Definition run (o : obs) : obs :=
   match o with
   | L [L [I kind; I rel; L origin]; L probes; L hist] =>
       match name_of_obs origin, names_of_obs probes, hist_of_obs hist with
       | Some origin, Some probes, Some h =>
           let c := mkCfg kind (rel =? 1) origin in
-          L (map (obs_of_txn c probes) (impl_hist c h []))
+          let oh := obs_of_htxns c probes ([], []) (heap_hist c h ([], [])) in
+          let ov := map (obs_of_txn c probes) (impl_hist c h []) in
+          if obs_eqb (L (drop_identity oh)) (L ov) then L oh else E eModelsDisagree
       | _, _, _ => E eBadCase
       end
   | _ => E eBadCase
